@@ -29,9 +29,11 @@ KEYS = {
     'concat(size, name)': ('str', lambda e: '%d%s' % (e['size'], e['name'])),
     '-size': ('num', lambda e: -e['size']),                     # a key that begins with a sign or a bracket
     '(size + 1) * 2': ('num', lambda e: (e['size'] + 1) * 2),
-    '1000 - size': ('num', lambda e: 1000 - e['size']),          # literal on the left: written by position only
+    '1000 - size': ('num', lambda e: 1000 - e['size']),          # a number on the left: an expression, not a position
+    '2 - size': ('num', lambda e: 2 - e['size']),
+    '1 + size': ('num', lambda e: 1 + e['size']),
 }
-POSITIONAL_ONLY = {'1000 - size'}
+POSITIONAL_ONLY = set()
 
 
 def ord_tree():
